@@ -154,7 +154,10 @@ static void build_confs(int tier) {
 
 typedef struct { long states, transitions, terminals, configs, maxdepth; int nfound; char found[16][1200]; char fkey[16][200]; long capped; } shared_t;
 
+#include <sys/personality.h>
 int main(int argc, char ** argv) {
+  /* fixed address-space layout: state counts are then reproducible run to run */
+  if (!getenv("U2_NOASLR")) { setenv("U2_NOASLR", "1", 1); if (personality(ADDR_NO_RANDOMIZE) != -1) execv("/proc/self/exe", argv); }
   const char * stats = "build/c02e2/stats.json"; int tier = 0, jobs = 16, only = -1; long cap = 4000000; double deadline = 1e9;
   for (int i = 1; i < argc; i++) {
     if (!strcmp(argv[i], "--stats")) stats = argv[++i]; else if (!strcmp(argv[i], "--tier")) tier = !strcmp(argv[++i], "thorough");
